@@ -7,7 +7,7 @@ import proto, gen, kernels, implutil
 THEOREMS = ['C02_crossing_char_rise', 'C02_crossing_char_decay', 'C02_crossings_sorted', 'C02_alternation', 'C02_halfwave_pos', 'C02_halfwave_neg',
             'C02_first_max', 'C02_first_min', 'C02_exact', 'C02_boundary', 'C02_alternating', 'C02_first', 'C02_full']
 RULE = ("generated signals of all families (ties / plateaus make first-occurrence observable) x fs x band x filter length (n_cycles 2..5 or n_seconds) x boundary x "
-        "first_extrema in {peak, trough, None, invalid} x pad in {True, False}; the harness pads and band-passes as the property defines and ships the raw signal "
+        "first_extrema in {peak, trough, None, invalid} x pad in {True, False} x (12%) pass_type in {lowpass, highpass} with a one-sided f_range; the harness pads and band-passes as the property defines and ships the raw signal "
         "and the SIGN PATTERN of the filtered signal; plus synthetic sign patterns (random run lengths, degenerate: constant, single crossing) on small integer signals; "
         "distinct = distinct inputs; non-trivial = at least two extrema reported or an exception predicted")
 ASSUMPTIONS = ["neurodsp.filt.filter_signal / compute_filter_length are parameters: only (filtered > 0) and ceil(filt_len/2) are used",
@@ -28,13 +28,14 @@ def _impl_signal(c):
         with warnings.catch_warnings():
             warnings.simplefilter('ignore')
             fk = dict(c['fk']) if c['fk'] is not None else None
+            ptk = {'pass_type': c['pass_type']} if c.get('pass_type') else {}
             snap = repr(fk)
-            pk, tr = find_extrema(sig, c['fs'], tuple(c['f_range']), boundary=c['boundary'], first_extrema=c['first'], filter_kwargs=fk, pad=c['pad'])
+            pk, tr = find_extrema(sig, c['fs'], tuple(c['f_range']), boundary=c['boundary'], first_extrema=c['first'], filter_kwargs=fk, pad=c['pad'], **ptk)
             # the caller keeps using its settings dictionary: a second call must see the same settings
-            pk2, tr2 = find_extrema(sig, c['fs'], tuple(c['f_range']), boundary=c['boundary'], first_extrema=c['first'], filter_kwargs=fk, pad=c['pad'])
+            pk2, tr2 = find_extrema(sig, c['fs'], tuple(c['f_range']), boundary=c['boundary'], first_extrema=c['first'], filter_kwargs=fk, pad=c['pad'], **ptk)
             if repr(fk) != snap or not (np.array_equal(pk, pk2) and np.array_equal(tr, tr2)):
                 return ['err', 'SecondCallDiffers']
-            if c['first'] == 'peak' and len(pk) >= 1 and len(tr) >= 1:
+            if c['first'] == 'peak' and len(pk) >= 1 and len(tr) >= 1 and not c.get('pass_type'):
                 # the feature-level route: compute_cyclepoints hands the same options on and builds its table from these arrays
                 from bycycle.features import compute_cyclepoints
                 try:
@@ -107,7 +108,10 @@ def generate(ctx):
         first = rng.choice(['peak', 'trough', 'None', 'None', 'bogus'], p=[0.35, 0.3, 0.15, 0.15, 0.05])
         first = None if first == 'None' else str(first)
         cases.append(dict(kind='signal', sig=proto.arr2hex(s['sig']), fs=s['fs'], f_range=list(s['f_range']), fk=fk,
-                          boundary=int(rng.choice([0, 0, 1, 3, 10, 50])), first=first, pad=bool(rng.random() < 0.75), family=s['family'], pres=(str(rng.choice(['readonly', 'strided'])) if rng.random() < 0.3 else 'array')))      # find_extrema documents a 1d ARRAY (lists / Series are only accepted with pad=True)
+                          boundary=int(rng.choice([0, 0, 1, 3, 10, 50])), first=first, pad=bool(rng.random() < 0.75), family=s['family'], pres=(str(rng.choice(['readonly', 'strided'])) if rng.random() < 0.3 else 'array')))
+        if rng.random() < 0.12:      # the rarely used pass_type option: low-pass / high-pass half-waves (several cut-offs: consecutive cases differ only in f_hi)
+            pt = str(rng.choice(['lowpass', 'lowpass', 'highpass']))
+            cases[-1].update(pass_type=pt, f_range=([None, float(rng.choice([10.0, 15.0, 25.0, 40.0]))] if pt == 'lowpass' else [float(rng.choice([4.0, 8.0])), None]), fk=(None if rng.random() < 0.5 else {'n_cycles': int(rng.choice([3, 5]))}))      # find_extrema documents a 1d ARRAY (lists / Series are only accepted with pad=True)
     for i in range(ctx.scale(1500, 15000)):
         n = int(rng.integers(2, 40))
         padlen = int(rng.choice([0, 0, 1, 3]))
@@ -130,7 +134,7 @@ def evaluate(ctx, cases):
         if c['kind'] == 'signal':
             sig = proto.hex2arr(c['sig'])
             try:
-                pad, b = kernels.filt_sign(sig, c['fs'], tuple(c['f_range']), c['fk'], c['pad'])
+                pad, b = kernels.filt_sign(sig, c['fs'], tuple(c['f_range']), c['fk'], c['pad'], c.get('pass_type', 'bandpass'))
             except Exception as e:
                 skip.append(True); impls.append(None); reqs += ['ping', 'ping']; continue
             first = 'None' if c['first'] is None else c['first']
@@ -152,6 +156,6 @@ def evaluate(ctx, cases):
         judge_ok = True if spec == 'no-crossings' else impl == spec
         nt = impl[0] == 'err' or len(impl[1][0]) + len(impl[1][1]) >= 2
         ctx.hist('outcome', (impl[1] if impl[0] == 'err' else 'ok') + ('' if spec != 'no-crossings' else ':no-crossings'))
-        key = (c['kind'], hash(tuple(c['sig'])), c.get('b'), c.get('padlen'), c['boundary'], c['first'], repr(c.get('fk')), c.get('pad'), c.get('fs'), c.get('dt'))
+        key = (c['kind'], hash(tuple(c['sig'])), c.get('b'), c.get('padlen'), c['boundary'], c['first'], repr(c.get('fk')), c.get('pad'), c.get('fs'), c.get('dt'), c.get('pass_type'), repr(c.get('f_range')))
         out.append(Result(c, judge_ok=judge_ok, corr_ok=corr_ok, sig=hash(key), nontrivial=nt, info=dict(impl=impl, model=model, spec=spec)))
     return out
